@@ -30,17 +30,21 @@ class Run:
         return {"rc": self.rc, "stderr": self.err_text[-400:], "stdout_len": len(self.out), "timed_out": self.timed_out}
 
 
-def kestrel(args, env=None, stdin=b"", timeout=60, cwd=None, stdout_path=None, stdin_path=None):
-    """Run the CLI with a clean environment.  stdin is a pipe (never a terminal)."""
+def kestrel(args, env=None, stdin=b"", timeout=60, cwd=None, stdout_path=None, stdin_path=None, raw_env=None, setsid=False):
+    """Run the CLI with a clean environment.  stdin is a pipe (never a terminal).  raw_env: further variables given as
+    bytes (values that are not UTF-8); setsid: in a session of its own, i.e. without a controlling terminal."""
     e = {"PATH": "/usr/bin:/bin", "HOME": "/nonexistent", "LANG": "C.UTF-8"}
     if env:
         e.update(env)
+    if raw_env:
+        e = {os.fsencode(k): os.fsencode(v) for k, v in e.items()}
+        e.update(raw_env)
     fin = open(stdin_path, "rb") if stdin_path else None
     fout = open(stdout_path, "wb") if stdout_path else None
     try:
         p = subprocess.run([KESTREL] + list(args), input=None if fin else stdin, stdin=fin,
                            stdout=fout if fout else subprocess.PIPE, stderr=subprocess.PIPE,
-                           env=e, timeout=timeout, cwd=cwd)
+                           env=e, timeout=timeout, cwd=cwd, start_new_session=setsid)
         return Run(p.returncode, p.stdout if not fout else b"", p.stderr)
     except subprocess.TimeoutExpired as ex:
         return Run(-999, b"", (ex.stderr or b""), timed_out=True)
